@@ -373,7 +373,7 @@ impl Srv {
       let mut record = |kind: &str, pos: Option<(u32, u32)>, r: Result<bool, String>, n: &mut usize| {
         *n += 1;
         if let Err(p) = r {
-          panics.push(json!({"kind": kind, "m": name, "pos": pos.map(|p| json!([p.0, p.1])), "panic": p}));
+          panics.push(json!({"kind": kind, "m": name, "pos": pos.map(|p| json!([p.0, p.1])).unwrap_or(json!([])), "panic": p}));
         }
       };
       // whole-document requests
